@@ -325,6 +325,22 @@ def r4_task_independence(ctx):
     ctx.check(ok, f.qual + "#first-processor", "metadata run starts from the shared original processor" if ok else "metadata run does not use the original processor", where=f, node=first)
 
 
+def _creates_island_from_seed(ctx, f, e) -> bool:
+    """``e`` names a function of the package (nested function or method) that takes the seed as its
+    parameter and whose every return is ``pg.island(..., seed=<that parameter>)``."""
+    if dotted(e) == "create_island":
+        return True
+    try:
+        fv = ctx.R._func_value(f, e, ctx.R.env(f)) if isinstance(e, (ast.Name, ast.Attribute)) else None
+    except Exception:
+        fv = None
+    if fv is None:
+        return False
+    ps = [p_ for p_ in fv.params if p_ not in ("self", "cls")]
+    rets = [r for r in returns_of(fv) if r.value is not None]
+    return len(ps) == 1 and bool(rets) and all(isinstance(r.value, ast.Call) and call_name(r.value).endswith("island") and kw(r.value, "seed") is not None and dotted(kw(r.value, "seed")) == ps[0] for r in rets)
+
+
 def r5_island_order(ctx):
     """Islands are appended in the order of `seeds`: both branches iterate an order-preserving map(create_island, seeds) and push_back inside that loop; no as_completed / submit."""
     b = ctx.func("pyxel.calibration.archipelago_datatree:ArchipelagoDataTree._build")
@@ -355,7 +371,7 @@ def r5_island_order(ctx):
                             continue
                         cands.append(getattr(d.ast, "value", None) if d is not g.entry else None)
             okm = bool(cands) and all(
-                isinstance(cd, ast.Call) and call_name(cd).split(".")[-1] == "map" and len(cd.args) == 2 and dotted(cd.args[0]) == "create_island" and dotted(cd.args[1]) == "seeds"
+                isinstance(cd, ast.Call) and call_name(cd).split(".")[-1] == "map" and len(cd.args) == 2 and _creates_island_from_seed(ctx, b, cd.args[0]) and dotted(expand(b, cd.args[1])) == "seeds"
                 for cd in cands
             ) and not order_breakers(it)
             ok = okm
